@@ -84,8 +84,31 @@ def run(prog: Program, ctx: Ctx) -> None:  # noqa: PLR0912,PLR0915
     # the kind-specific merges are private helpers: every module-level function of the merger other than the two under test and the public entry is
     # replaced by a recording stand-in, and which one serves which kind is read off a calibration row (one runtime member, one stub member of the
     # same kind), not off their names
-    HANDLERS = [f_.name for f_ in prog.functions.values() if f_.module.name == MG and f_.cls is None and f_.outer is None
-                and f_.name not in ("_merge_stubs_members", "_merge_stubs_overloads", "merge_stubs") and len(f_.params) >= 2]
+    from sa.callgraph import CallGraph as _CG19
+
+    _cg19 = _CG19(prog)
+    cand = {f_.qualname: f_ for f_ in prog.functions.values() if f_.module.name == MG and f_.cls is None and f_.outer is None
+            and f_.name not in ("_merge_stubs_members", "_merge_stubs_overloads", "merge_stubs") and len(f_.params) >= 2}
+
+    def callees19(f_):
+        return [e_.callee for e_ in _cg19.edges_from(f_) if isinstance(e_.callee, type(mm)) and e_.callee.qualname in cand]
+
+    HANDLERS: list[str] = []
+    work19, seen19 = [mm], {mm.qualname}
+    while work19:
+        for g_ in callees19(work19.pop()):
+            if g_.qualname in seen19:
+                continue
+            seen19.add(g_.qualname)
+            if len({x.qualname for x in callees19(g_)}) >= 2:
+                work19.append(g_)  # a dispatch helper between the member loop and the merges: evaluated, its callees considered
+            else:
+                HANDLERS.append(g_.name)
+    # ... and the functions a module-level table hands to the member loop (a dispatch table of merges: the call goes through a variable)
+    for tbl_ in prog.module(MG).assigns.values():
+        for n_ in ast.walk(tbl_):
+            if isinstance(n_, ast.Name) and f"{MG}.{n_.id}" in cand and n_.id not in HANDLERS:
+                HANDLERS.append(n_.id)
     for name in HANDLERS:
         it.stubs[f"{MG}.{name}"] = (lambda n: (lambda _i, *a, **_k: events.append((n, a))))(name)
 
